@@ -5,6 +5,7 @@ import (
 	"fmt"
 	"github.com/cloudwego/hertz/pkg/app"
 	hserver "github.com/cloudwego/hertz/pkg/app/server"
+	"github.com/cloudwego/hertz/pkg/common/config"
 	"os"
 	"strings"
 	"testing"
@@ -42,7 +43,13 @@ func server(stream bool, maxBody int) *srv.Echo {
 	if mb == 0 {
 		mb = 8 << 20
 	}
-	s := srv.NewEcho(srv.Config{Stream: stream, MaxBody: mb, Setup: func(h *hserver.Hertz, echo app.HandlerFunc) {
+	var extra []config.Option
+	if maxBody < 0 {
+		// the body limit switched off (any value <= 0): the announced length alone decides nothing
+		mb = 0
+		extra = []config.Option{hserver.WithMaxRequestBodySize(0)}
+	}
+	s := srv.NewEcho(srv.Config{Stream: stream, MaxBody: mb, Extra: extra, Setup: func(h *hserver.Hertz, echo app.HandlerFunc) {
 		// real routes, so that the engine's own redirects (trailing slash, fixed path) are reachable
 		h.GET("/tsr/", echo)
 		h.GET("/tsr2", echo)
@@ -253,17 +260,24 @@ func TestC03Server(t *testing.T) {
 		}
 		cuts := gen.Cuts(t, len(b), marks)
 		end := rapid.SampledFrom([]sconn.End{sconn.EOF, sconn.EOF, sconn.Timeout, sconn.Reset}).Draw(t, "end")
-		obs, res, _ := server(stream, 0).Run(sconn.Split(b, cuts), end)
+		limit := 0
+		if rapid.IntRange(0, 3).Draw(t, "bodyLimitOff") == 0 {
+			limit = -1
+		}
+		obs, res, _ := server(stream, limit).Run(sconn.Split(b, cuts), end)
 		outcome, msg := judgeServer(b, obs, res, end)
 		_, serr := wire.ReadRequest(b, 0)
 		nt := serr != nil || len(strictPrefix(b)) < 3
 		cls := []string{"outcome-" + outcome}
+		if limit < 0 {
+			cls = append(cls, "body-limit-off")
+		}
 		for _, m := range muts {
 			cls = append(cls, "mut-"+m)
 		}
 		rec.Case(nt, ev.Hash(b, []byte(fmt.Sprint(stream, cuts, end))), cls...)
 		if msg != "" {
-			t.Fatalf("streaming=%v end=%v mutations=%v cuts=%v\n%s\ninput: %q", stream, end, muts, trim(cuts), msg, short(b))
+			t.Fatalf("streaming=%v bodyLimit=%d end=%v mutations=%v cuts=%v\n%s\ninput: %q", stream, limit, end, muts, trim(cuts), msg, short(b))
 		}
 		if rec.WantSample() && outcome == "rejected" {
 			rec.Sample(map[string]interface{}{"streaming": stream, "mutations": muts, "input": string(short(b)), "outcome": outcome})
